@@ -48,6 +48,16 @@ type Hasher interface {
 	Check(password, hashStr string) (bool, error)
 }
 
+// syncDir flushes pending directory entry changes (rename, unlink) of path to disk
+func syncDir(path string) error {
+	dir, err := os.Open(path)
+	if err != nil {
+		return err
+	}
+	defer dir.Close() //nolint:errcheck
+	return dir.Sync()
+}
+
 // fileExists returns whether the given file or directory exists or not
 // this is from: stackoverflow.com/questions/10510691
 func fileExists(path string) (bool, error) {
@@ -269,7 +279,12 @@ func (u *UserHash) SetAdmin(adminState bool) error {
 		oldname += adminExt
 		newname += userExt
 	}
-	return os.Rename(oldname, newname)
+	if err := os.Rename(oldname, newname); err != nil {
+		return err
+	}
+
+	// Flush the move to disk
+	return syncDir(u.store.BaseDir)
 }
 
 // Remove deletes hash file.
